@@ -1,5 +1,6 @@
 """Discharge the obligations of a set of contracted functions."""
 from __future__ import annotations
+import os
 import time
 from concurrent.futures import ThreadPoolExecutor
 
@@ -67,24 +68,24 @@ def vc_text(engine, ob, defs=None, fuel=None, get_values=(), nl="exact", axioms=
 # quantified hypotheses other than preconditions and ghost cuts, the sequence theory, products, quantified definitions), so `unsat`
 # from any of them proves the obligation; only the unweakened VC ("full") is ever used to refute.
 VARIANTS = [
-    # label, vc_text keywords, solver, seconds
+    # label, vc_text keywords, solver, CPU seconds; ordered by how many obligations each stage closed per second in practice
     ("ground-defs", dict(defs="ground", fuel=None), "z3", 3),
-    ("ground-defs, products abstracted", dict(defs="ground", fuel=None, nl="abstract"), "z3", 6),
     ("light axioms", dict(axioms="light"), "z3", 5),
-    ("light axioms, sequences abstracted", dict(axioms="light", seq="abstract"), "z3", 8),
-    ("light axioms, ground-defs", dict(axioms="light", defs="ground", fuel=3), "z3", 5),
-    ("focus", dict(axioms="light", focus=True), "z3", 6),
-    ("focus, ground-defs, sequences abstracted", dict(axioms="light", focus=True, defs="ground", fuel=3, seq="abstract"), "z3", 6),
-    ("focus, sequences abstracted", dict(axioms="light", focus=True, seq="abstract"), "z3", 6),
-    ("light axioms, ground-defs, sequences abstracted", dict(axioms="light", defs="ground", fuel=3, seq="abstract"), "z3", 6),
-    ("focus, ground-defs", dict(axioms="light", focus=True, defs="ground", fuel=3), "z3", 6),
     ("light axioms", dict(axioms="light"), "cvc5", 8),
+    ("light axioms, sequences abstracted", dict(axioms="light", seq="abstract"), "z3", 8),
     ("light axioms, sequences abstracted", dict(axioms="light", seq="abstract"), "cvc5", 8),
+    ("focus, ground-defs, sequences abstracted", dict(axioms="light", focus=True, defs="ground", fuel=3, seq="abstract"), "z3", 6),
+    ("focus", dict(axioms="light", focus=True), "z3", 6),
+    ("ground-defs, products abstracted", dict(defs="ground", fuel=None, nl="abstract"), "z3", 12),
     ("ground-defs, products abstracted", dict(defs="ground", fuel=None, nl="abstract"), "cvc5", 8),
+    ("light axioms, ground-defs, sequences abstracted", dict(axioms="light", defs="ground", fuel=3, seq="abstract"), "z3", 6),
     ("full", dict(), "z3", 20),
     ("full", dict(), "cvc5", 20),
     ("ground-defs", dict(defs="ground", fuel=None), "cvc5", 10),
     ("focus", dict(axioms="light", focus=True), "cvc5", 10),
+    ("focus, sequences abstracted", dict(axioms="light", focus=True, seq="abstract"), "z3", 6),
+    ("light axioms, ground-defs", dict(axioms="light", defs="ground", fuel=3), "z3", 5),
+    ("focus, ground-defs", dict(axioms="light", focus=True, defs="ground", fuel=3), "z3", 6),
 ]
 
 
@@ -166,8 +167,12 @@ def discharge(engine: Engine, reports, schedule=None, both=False, workers=16):
                         o.result = res
                 return o
 
+            t_stage = time.time()
+            n_before = len(open_obs)
             list(ex.map(step, open_obs))
             open_obs = [o for o in open_obs if not o.ok and not (o.result is not None and o.result.status == "sat")]
+            if os.environ.get("PYVC_TRACE"):
+                print(f"[stage] {sv}({label}) {to}s: {n_before} -> {len(open_obs)} open, {time.time() - t_stage:.1f}s wall", flush=True)
         if 0 < len(open_obs) <= 6:
             # a few obligations left: long budgets (many open ones mean a changed function, not a hard proof)
             for label, kw, sv, to in LONG_VARIANTS:
